@@ -989,7 +989,7 @@ class CodeGen:
         self.step({"kind": "snark_call", "desc": {"op": "snark_call"}})
 
     # -- qaptools sub-circuits (C12) -----------------------------------------------------------
-    SUBQAP_RET = {0: 1, 1: 1, 2: 2, 3: 1}
+    SUBQAP_RET = {0: 1, 1: 1, 2: 2, 3: 1, 4: 1, 5: 1}
 
     def subqap_defs(self):
         for k, f in enumerate(self.plan.get("subqaps", [])):
@@ -1008,6 +1008,14 @@ class CodeGen:
                 self.emit("return t + %s" % a1)
             elif t == 2:
                 self.emit("return [%s * %s, %s + 1]" % (a0, a1, a0))
+            elif t == 4:
+                # an equality test and a constant inside the function (uses the constant-one wire)
+                self.emit("return (%s == %s) * %s + 1" % (a0, a1, a0))
+            elif t == 5:
+                # a public value created inside the function
+                self.emit("t = %s * %s" % (a0, a1))
+                self.emit("t.val()")
+                self.emit("return t + 0")
             else:
                 inner = f.get("inner")
                 if inner is None or inner >= k:
